@@ -27,14 +27,41 @@ MANIFEST = dict(
 "exact (Rat) / bit-for-bit (Float) line-by-line correspondence of single, stateful-block, stateless-block evaluation, "
         "featureDistanceSqr, Gram matrices over many batch partitions (thorough: all ordered partitions of up to 12 points) and the "
         "derivative calls, for dense and sparse inputs, under ASan/UBSan, plus an in-harness property oracle (symmetry, block=single, "
-        "unit diagonal, smallest eigenvalue, finite-difference derivatives of every composed kernel)."),
+        "unit diagonal, smallest eigenvalue, finite-difference derivatives of every composed kernel). "
+        "OBJECT HISTORIES (every run, both tiers): a kernel object is constructed once and then reconfigured in place - "
+        "ScaledKernel::setFactor on any ScaledKernel of the expression (constructed with the default factor in a third of the cases), "
+        "setParameterVector with fresh admissible vectors (offsets, gammas, log-weights, ARD log-gammas, model matrices), 0-4 steps - and all "
+        "clauses are observed again on the SAME object after every step. Model: KObj (Model/Kernels.lean) = current expression + the "
+        "IS_NORMALIZED flag as cached by the constructors, Kern.setFactor / Kern.setParams / numParams; theorems history_flag_sound (the "
+        "cached flag equals the flag of the current expression after EVERY history), history_diag_one, history_featureDistance_def, "
+        "featureDistanceBlock_eq_single (batch featureDistanceSqr = matrix of single feature distances, new op fdistb); correspondence of "
+        "flags (isNormalized, numberOfParameters), setfactor, setparams, fdistb exact/bit-for-bit. In-harness CLAIM ORACLE after every "
+        "reconfiguration on all current points: IS_NORMALIZED => k(x,x)=1 (4 ulp), featureDistanceSqr single and batch = "
+        "k(x,x)-2k(x,z)+k(z,z) (1e-12 relative), parameterVector reads back what setParameterVector installed (1e-12). "
+        "INDEPENDENT ORACLES WITHOUT MODEL (numerical, tolerance stated): op unitvar = the library's own setFactor caller "
+        "NormalizeKernelUnitVariance::train on a default-constructed ScaledKernel over the current kernel and a batched dataset, then the "
+        "claim oracle and unit variance (1e-9); op gderiv = calculateKernelMatrixParameterDerivative over a batch partition against one "
+        "unbatched weightedParameterDerivative call (1e-9 relative; that call is tied to finite differences by dcheck, 2e-5); "
+        "oracle-only configuration cases (harness alone, no Lean model): weighted sums / SubrangeKernels with ADAPTIVE sub-kernels "
+        "(setAdaptiveAll: sub-kernel parameters in the parameter vector and in weightedParameterDerivative), unconstrained (log) encodings "
+        "of the polynomial offset and the Gaussian gamma, ARD with arbitrary gammas, each with a setParameterVector in the middle, judged "
+        "by claim/symmetry/block=single/Gram/eigenvalue/finite-difference oracles."),
   note=TRUST + "floating-point rounding is outside the theorems (exact-arithmetic statements; 'no negative eigenvalues beyond rounding' "
        "is checked numerically by the harness oracle only); Gaussian/ARD PSD-ness is proved for data of equal dimension (the C++ SIZE_CHECK) and is a hypothesis only in the variant for points of unequal length; derivative theorems cover "
        "Gaussian/polynomial/linear/ARD/scaled and the weighted-sum log-weights - derivatives of normalised, sub-range, monomial, model, point-set kernels and the "
        "weighted-sum input derivative are exercised by the finite-difference oracle only (toleranced 2e-5); the Gaussian derivative correspondence is "
        "bit-exact on 1x1 blocks only (ARD: all blocks), PointSetKernel with inexact base values only on singleton sets (summation order not modelled); "
        "PSD of PointSetKernel is proved as a quadratic-form statement (pointSet_quadForm_nonneg), not as Matrix.PosSemidef; MultiTaskKernel, MklKernel and the unconstrained parameter encodings of Gaussian/polynomial are not modelled; ARD, normalised and sub-range kernels "
-       "cannot be instantiated for sparse inputs in Shark, so the sparse runs cover the other kernels. Four genuine defects found by this check "
+       "cannot be instantiated for sparse inputs in Shark, so the sparse runs cover the other kernels. "
+       "Reconfiguration: ARD kernels whose gammas are not exactly representable (after setParameterVector) are outside the bit-exact "
+       "correspondence (dense diagonalMahalanobisDistanceSqr is an inner_prod, BLAS summation order): model-compared histories install ARD "
+       "log-gammas 0 only, arbitrary ones run oracle-only; adaptive sub-kernels and unconstrained encodings are not in the Lean model "
+       "(oracle-only, toleranced); PSD after a history follows from kernel_psd_equalDim applied to the reconfigured expression, an "
+       "explicit admissibility-preservation theorem for setFactor/setParams is not stated; read() from an archive into a differently "
+       "configured object is not exercised here (C18). OPEN finding F-C05-5 product-stale-parameter-count (ProductKernel caches its "
+       "parameter count; heap overflow in parameterVector() after a factor's setAdaptiveAll; corpus/C05/product_stale_parameter_count.txt, "
+       "patch findings_proposed/C05-product-stale-parameter-count.patch): while the corpus probe fails the generator keeps sums below a "
+       "product non-adaptive. Four genuine defects found earlier by this check "
        "(normalized-stateless-block, discrete-block-ignores-indices, monomial-degree1-input-derivative, product-uninitialised-parameter-count) "
        "are repaired in /repo by fix: commits ceaec0f1, f2e5cee8, e15da9fc, dba592e9; their inputs stay in corpus/C05 and the model is the repaired code.",
   technique="Lean 4 proofs by structural induction over a kernel expression language + Mathlib PosSemidef/HasDerivAt + differential correspondence with the C++ (exact / bit mode, ASan/UBSan)",
@@ -42,7 +69,8 @@ MANIFEST = dict(
 
 FINISH = dict(level="proof",
               rule="a case = kernel expression (random composition, depth <= 3, dyadic parameters) + integer points + ops "
-                   "(single / block / sblock / fdist / gram over batch partitions / mixed / pderiv / ideriv / dcheck); non-trivial = composed kernel "
+                   "(single / block / sblock / fdist / fdistb / flags / gram over batch partitions / mixed / pderiv / ideriv / dcheck / gderiv / unitvar) "
+                   "+ in-place reconfigurations (setfactor / setparams / adaptall) with observations after each; non-trivial = composed kernel "
                    "(depth >= 1) or a Gram op with >= 2 batches; distinct = distinct op text")
 
 LAKE_TARGETS = ["SharkVerif.Props.C05", "drv_c05"]
@@ -618,8 +646,8 @@ def run(ctx):
     env = {"OMP_NUM_THREADS": "2" if ctx.quick else "3", "OMP_WAIT_POLICY": "passive"}
     ncases, ndisc, maxn = (400, 40, 7) if ctx.quick else (2500, 200, 10)
     nderiv = 80 if ctx.quick else 500
-    nhist = 150 if ctx.quick else 1000
-    nconf = 150 if ctx.quick else 1000
+    nhist = 300 if ctx.quick else 1000
+    nconf = 300 if ctx.quick else 1000
     cases = []       # (ops, info)
     for ops, mode in load_corpus():
         cases.append((ops, dict(exact_case=(mode == "exact"), kinds=set(kinds_of(ops)), depth=-1, n=0, dim=0, parts=0, corpus=True,
@@ -693,6 +721,7 @@ def run(ctx):
         core.correspond(ctx, f"K-C05[{inp},rat]", ex, [exe, inp], [drv, "rat"], classify, keep_prefix=2, env=env)
     ctx.sample({"theorems": ["k_symm", "batch_eval_eq_single", "batch_evalS_eq_single", "gram_assembly_correct",
                              "gram_partition_independent", "normalized_diag_one", "isNormalized_diag_one", "featureDistance_def",
+                             "history_flag_sound", "history_diag_one", "history_featureDistance_def", "featureDistanceBlock_eq_single",
                              "linear_psd", "kernel_psd", "gram_psd", "gauss_weightedParameterDerivative",
                              "poly_weightedParameterDerivative", "gauss_weightedInputDerivative"]})
 
